@@ -173,6 +173,10 @@ func cmdDICases(args []string) error {
 		mkFactory := func(name, tag string) app.Factory {
 			return func(dp app.DependencyProvider) (interface{}, error) {
 				calls[name]++
+				if calls[name] > 25 {
+					// NoRecursion of the model: a factory is entered at most once per request chain
+					panic(fmt.Sprintf("runaway recursion: the factory of %s has been entered %d times", name, calls[name]))
+				}
 				for _, e := range deps[name] {
 					_, err := dp.Get(e.T)
 					if err != nil && !e.Opt {
